@@ -126,6 +126,7 @@ struct Stats {
     accepted: usize,
     rejected: usize,
     splitting: usize,
+    keyword_templates: usize,
 }
 
 fn hx(b: &[u8]) -> String {
@@ -275,6 +276,48 @@ fn templated(rng: &mut Rng, text: &[u8], bounds: &[usize]) -> (Vec<u8>, Vec<(usi
     (doc, rs)
 }
 
+/// Template documents cut exactly IN FRONT OF KEYWORDS: every fragment but the first begins with a keyword
+/// (an alphabetic literal of the grammar, lexed through the `word` token and the keyword lexer) and its
+/// predecessor ends with the white space that preceded the keyword — the usual `<% a; %> … <% let b %>` shape.
+fn keyword_template(rng: &mut Rng, text: &[u8], toks: &[gen::Tok], bounds: &[usize], grammar_json: &str) -> Option<(Vec<u8>, Vec<(usize, usize)>)> {
+    let n = text.len();
+    let mut cuts: Vec<usize> = Vec::new();
+    for (i, t) in toks.iter().enumerate() {
+        if i == 0 || 2 * i >= bounds.len() {
+            continue;
+        }
+        let start = bounds[2 * i];
+        let is_kw = t.text.len() >= 2
+            && t.text.bytes().all(|b| b.is_ascii_alphabetic() || b == b'_')
+            && grammar_json.contains(&format!("\"value\": \"{}\"", t.text));
+        if is_kw && start > 0 && start <= n && (text[start - 1] == b' ' || text[start - 1] == b'\n' || text[start - 1] == b'\t') {
+            cuts.push(start);
+        }
+    }
+    cuts.dedup();
+    if cuts.is_empty() {
+        return None;
+    }
+    // keep 1-3 of them
+    while cuts.len() > 3 {
+        let k = rng.below(cuts.len());
+        cuts.remove(k);
+    }
+    let junk: [&[u8]; 8] = [b"%><%", b"<% x %>", b"###", b"}", b"((", "é€".as_bytes(), b"0", b"\n%>\n"];
+    let mut all = vec![0usize];
+    all.extend(cuts);
+    all.push(n);
+    let mut doc = Vec::new();
+    let mut rs = Vec::new();
+    for w in all.windows(2) {
+        let a = doc.len();
+        doc.extend_from_slice(&text[w[0]..w[1]]);
+        rs.push((a, doc.len()));
+        doc.extend_from_slice(junk[rng.below(junk.len())]);
+    }
+    Some((doc, rs))
+}
+
 // ---------------------------------------------------------------- function level
 fn random_doc(rng: &mut Rng) -> Vec<u8> {
     let pieces: [&[u8]; 16] = [b"a", b"b", b" ", b"\n", "é".as_bytes(), "€".as_bytes(), "😀".as_bytes(), b"\r\n", b"(", b"0", b"\xe2\x82", b"\xc3", b"\xff", b"\x80", b"\t", b"xyz"];
@@ -361,7 +404,7 @@ fn main() {
     let args: Vec<String> = std::env::args().collect();
     let out_path = args.get(1).expect("usage: c13 <ops-file> [--spec file] [lang...]").clone();
     let mut out = std::io::BufWriter::new(std::fs::File::create(&out_path).unwrap());
-    let mut st = Stats { cases: 0, accepted: 0, rejected: 0, splitting: 0 };
+    let mut st = Stats { cases: 0, accepted: 0, rejected: 0, splitting: 0, keyword_templates: 0 };
     let run_specs = |src: &str, tag: &str, out: &mut std::io::BufWriter<std::fs::File>, st: &mut Stats| {
         for (i, line) in src.lines().enumerate() {
             if line.trim().is_empty() || line.starts_with('#') {
@@ -424,6 +467,16 @@ fn main() {
             if text.len() > 3000 {
                 text.truncate(3000);
             }
+            // keyword grammars: fragments that begin with a keyword after a fragment ending in white space
+            if d % 3 != 2 {
+                for _ in 0..(if thorough { 3 } else { 1 }) {
+                    if let Some((doc, bs)) = keyword_template(&mut rng, &text, &toks, &bounds, &b.grammar_json) {
+                        no += 1;
+                        st.keyword_templates += 1;
+                        emit_case(&mut out, &format!("{id}-{no}"), &id, &mut parser, &doc, &bs, &mut st);
+                    }
+                }
+            }
             for l in 0..lists_per_doc {
                 no += 1;
                 if l % 2 == 1 && d % 3 != 2 {
@@ -438,7 +491,7 @@ fn main() {
     }
     out.flush().unwrap();
     eprintln!(
-        "c13: wrote {} function cases and {} system cases ({} accepted, {} rejected lists, {} with a character-splitting boundary) to {}",
-        nf, st.cases, st.accepted, st.rejected, st.splitting, out_path
+        "c13: wrote {} function cases and {} system cases ({} accepted, {} rejected lists, {} with a character-splitting boundary, {} keyword templates) to {}",
+        nf, st.cases, st.accepted, st.rejected, st.splitting, st.keyword_templates, out_path
     );
 }
